@@ -191,8 +191,9 @@ def step (line : String) : String :=
     match (do
         let (pb, pe, s2) ← Sel.pos line s1 cur
         let (t, l2, _) ← Sel.cut line s2 cur
-        pure (pb, pe, t, l2) : Core.G _) with
-    | .ok (pb, pe, t, l2) => s!"ok {pb} {pe} {showNats t} {showNats l2}"
+        let (yt, _, _) ← Sel.pop line s1 cur
+        pure (pb, pe, t, l2, yt) : Core.G _) with
+    | .ok (pb, pe, t, l2, yt) => s!"ok {pb} {pe} {showNats t} {showNats l2} {showNats yt}"
     | .error e => e.show
   | ["refresh", w, prevRow, pp, l, pos] =>
     let toks := Disp.refresh (w.toNat?.getD 80) [62, 32] [9492, 32] (prevRow.toNat?.getD 0) (pp == "1") (parseNats l) (pos.toNat?.getD 0)
